@@ -7,7 +7,7 @@
    clone/drop/gc is the specification correspondence of this property's profile. *)
 From Coq Require Import List Arith Bool.
 Import ListNotations.
-From Sodium Require Import Gc GcExactBase GcExactInv GcExact GcHeap.
+From Sodium Require Import Gc GcExactBase GcExactInv GcExact GcHeap Heap HeapFacts.
 
 (* through ANY contract-respecting interleaving of handle clones, drops, edge changes, transient upgrades
    and collections, an object reachable from a held handle is never freed *)
@@ -40,3 +40,37 @@ Print Assumptions C06_only_collect_frees.
 Example C06_nonvacuous : svalid_run sinit example_script = true.
 Proof. exact example_valid. Qed.
 Print Assumptions C06_nonvacuous.
+
+(* ---- the FRP level (Model/Heap.v: every primitive of the static fragment compiled to collector operations, tied
+   object by object to the real heap by the correspondence check) ---- *)
+
+(* every program runs without any reference-counting abort and keeps the contract WF *)
+Theorem C06_program_no_abort : forall ops, exists st, hrun hinit ops = Ok st /\ WF (hs st).
+Proof. exact hrun_total. Qed.
+Print Assumptions C06_program_no_abort.
+
+(* the collector's handle count of every object is exactly what the program's slots and listeners hold on it *)
+Theorem C06_program_handles_exact : forall ops st,
+    hrun hinit ops = Ok st -> forall o, ext_of (hs st) o = count_occ Nat.eq_dec (held st) o.
+Proof. exact hrun_tracked. Qed.
+Print Assumptions C06_program_handles_exact.
+
+(* in every state any program reaches, whatever is reachable from a handle the program holds (a slot, a registered
+   listener, the context's keep-alive of a strong listener) is not freed *)
+Theorem C06_program_held_never_freed : forall ops st,
+    hrun hinit ops = Ok st ->
+    forall h o, In h (held st) -> reach (E (g (hs st))) h o -> freed (get (g (hs st)) o) = false.
+Proof. exact program_held_never_freed. Qed.
+Print Assumptions C06_program_held_never_freed.
+
+(* non-vacuity: an accumulator over a sink, listened to, then the sink's handle dropped and a collection run: the
+   sink (object 0) is still held up by the accumulator's snapshot node and is not freed *)
+Example C06_program_nonvacuous :
+  match hrun hinit [HDef 0 PSink []; HDef 1 PAccum [0]; HDef 2 PValue [1]; HListen 0 2 true; HDrop 0; HCollect] with
+  | Ok st => map (fun o => freed (get (g (hs st)) o)) (seq 0 (nobjs (g (hs st))))
+             = [false; false; true; false; false; false; false; false; false; false]
+             /\ length (held st) = 5
+  | _ => False
+  end.
+Proof. vm_compute. split; reflexivity. Qed.
+Print Assumptions C06_program_nonvacuous.
